@@ -4,6 +4,11 @@ Props/ComposeTables2.lean and §2 of Props/ComposeTables3.lean; same style).
 
   §1  PrefixLoadedS, prefixLoadedS_of_load, prefix_segResident, prefix_segment_notes_sound:
       the PT_NOTE *segment* note accessor (`note_segment_accessor`) on a prefix that loads
+  §2  symTabFor_prefix, prefix_byvalue_sound: `get_symbol(value, …)`
+  §3  symTabFor_prefix_ok, prefix_byname_sound_partial: `get_symbol(name, …)` (total; spec-exact when the symbol and
+      string data are in the prefix; the two null-data cases are NOT characterised)
+  §4  prefix_verneed_sound, prefix_verdef_sound: version requirement / definition chains
+  §5  prefix_segment_notes_sound_range: §1 for any segment type, reference = the complete file's bytes of the file range
 -/
 import ElfioVerif.Props.ComposeTables3
 
@@ -610,5 +615,56 @@ example (k : Nat) (kind : StreamKind) (isLazy : Bool) (rp : LoadRes)
   obtain ⟨o2, out, h, _, h'⟩ := prefix_verdef_sound exImg2 k rp.obj
     (prefixLoadedC_of_load exImg2 exImg2_wf {} rfl k kind isLazy rp hp hok) 7 (by decide +kernel) num no
   exact ⟨o2, out, h, h'⟩
+
+/-! ### 5. the PT_NOTE segment accessor without the `p_type ≠ PT_NULL` hypothesis (file RANGE as reference) -/
+
+/-- **prefix_segment_notes_sound_range**: `prefix_segment_notes_sound` for ANY segment type, with the reference taken
+    from the complete file's bytes in the segment's file RANGE `[p_offset, p_offset + p_filesz)` (for a non-PT_NULL
+    segment this range is `segFileBytes img j`, `segFileBytes_of_type`, and the statement is that of
+    `prefix_segment_notes_sound`): on a prefix that loads the accessor reports no note at all, or exactly the notes
+    `ns` encoded in that range of the COMPLETE file — never bytes from elsewhere, never a partial list.
+    NOT proved here: that a PT_NULL segment with `p_filesz ≠ 0` never carries data on a prefix (on the complete file it
+    does not: `segResident_ready`); that needs a "skip ⇒ no data" clause in the loader invariant `LoadedSeg`. -/
+theorem prefix_segment_notes_sound_range (img : Bytes) (k : Nat) (o : Obj) (hP : PrefixLoadedS img k o) (j : Nat)
+    (hj : j < eh img "e_phnum") (ns : List Spec.Note) (hf : ∀ n ∈ ns, n.Fits)
+    (hbytes : slice img (ph img j "p_offset") (ph img j "p_filesz") = Spec.encodeNotes (encOf img) ns)
+    (hsz : ph img j "p_filesz" ≤ 4294967293) (idx : BitVec 32) :
+    ∃ o1 n out, inspect o (.segNoteNum j) = .ok (o1, .num n) ∧ inspect o (.segNote j idx) = .ok (o1, .note out) ∧
+      PrefixLoadedS img k o1 ∧
+      ((n = 0 ∧ out = none) ∨ (n = ns.length ∧ out = specNote ns idx.toNat)) := by
+  obtain ⟨o1, g1, h1, hP1, _, _, hfs, hdata⟩ := prefix_segResident img k o hP j hj
+  have henc : o1.enc = encOf img := hP1.base.base.enc
+  rcases hdata with hd | ⟨hd, hl, _⟩
+  · obtain ⟨p1, p2⟩ := note_nodata (encOf img) (segNoteSrc g1) (by simp only [segNoteSrc]; exact hd)
+    refine ⟨o1, 0, none, ?_, ?_, hP1, Or.inl ⟨rfl, rfl⟩⟩
+    · simp only [inspect, h1, henc, p1]; rfl
+    · simp only [inspect, h1, henc, p1, p2 idx]; rfl
+  · have hok : C13.SrcOk (segNoteSrc g1) := by
+      intro a ha
+      have ha' : g1.data = some a := ha
+      rw [hd] at ha'
+      cases ha'
+      simp only [segNoteSrc, List.length_append, List.length_cons, List.length_nil]
+      rw [hl, hfs]
+      omega
+    have hv : C13.NoteSrc.view (segNoteSrc g1) = Spec.encodeNotes (encOf img) ns := by
+      rw [← hbytes]
+      simp only [C13.NoteSrc.view, segNoteSrc, hd, Option.getD_some, hfs]
+      exact List.take_left' hl
+    obtain ⟨pos, hp, hn, hg⟩ := note_source_reports (encOf img) (segNoteSrc g1) hok
+      (by simp only [segNoteSrc]; rw [hfs]; exact hsz) ns hf hv
+    refine ⟨o1, ns.length, specNote ns idx.toNat, ?_, ?_, hP1, Or.inr ⟨rfl, rfl⟩⟩
+    · simp only [inspect, h1, henc, hp, hn]; rfl
+    · simp only [inspect, h1, henc, hp, hg idx]; rfl
+
+example (k : Nat) (kind : StreamKind) (isLazy : Bool) (rp : LoadRes)
+    (hp : load {} { data := exImg.take k, kind := kind } isLazy = .ok rp) (hok : rp.ok = true) (idx : BitVec 32) :
+    ∃ o1 n out, inspect rp.obj (.segNoteNum 0) = .ok (o1, .num n) ∧
+      inspect rp.obj (.segNote 0 idx) = .ok (o1, .note out) ∧
+      ((n = 0 ∧ out = none) ∨ (n = 2 ∧ out = specNote exNotes idx.toNat)) := by
+  obtain ⟨o1, n, out, g1, g2, _, g3⟩ := prefix_segment_notes_sound_range exImg k rp.obj
+    (prefixLoadedS_of_load exImg exImg_wf {} rfl k kind isLazy rp hp hok) 0 (by decide +kernel)
+    exNotes (by decide) (by decide +kernel) (by decide +kernel) idx
+  exact ⟨o1, n, out, g1, g2, g3⟩
 
 end ElfioVerif.ComposeTables
